@@ -109,7 +109,8 @@ impl ForOfLoop {
 impl ToIndentedString for ForOfLoop {
     fn to_indented_string(&self, interner: &Interner, indentation: usize) -> String {
         format!(
-            "for ({} of {}) {}",
+            "for {}({} of {}) {}",
+            if self.r#await { "await " } else { "" },
             self.init.to_interned_string(interner),
             self.iterable.to_interned_string(interner),
             self.body().to_indented_string(interner, indentation)
